@@ -41,6 +41,7 @@ _InputT = TypeVar('_InputT')
 _MAX_BATCH_SIZE = 4096
 _ITERATE_FN_MAX_THREADS = 256
 _IGNORE_ERROR_TYPES = (ValueError, TypeError)
+IGNORE_ERROR_TYPES = _IGNORE_ERROR_TYPES
 _RANDOM_ACCESS_BATCH_SIZE = 64
 
 
